@@ -134,7 +134,7 @@ theorem node_total {vk : String → List String} {v : Visitor σ} (hv : NonEditi
   | zero => intro n h; omega
   | succ d ih =>
     intro n hn w key parent anc path
-    simp only [specNode]
+    simp only [specNode, specBody]
     have hne := hv w.s ⟨.enter, n, key, parent, path, anc⟩
     rcases hcall : v w.s ⟨.enter, n, key, parent, path, anc⟩ with ⟨a, s1⟩
     rw [hcall] at hne
